@@ -236,6 +236,7 @@ def specs(prog, tier):                                    # noqa: F811
         out += [fam_g_at(cls), fam_g_reset(cls), fam_g_init(cls)]
     add = prog.classes["Add"]
     out += [fam_g_numeric_partial(add), fam_g_compute_numeric_partials(add)]
+    out += [fam_g_compute_numeric_partials(prog.classes["Multiply"])]
     return out
 
 
